@@ -69,3 +69,8 @@ Proof.
   destruct (Z.eqb_spec a (- 2 ^ 127)); destruct (Z.eqb_spec b (-1)); cbn; try reflexivity.
   lia.
 Qed.
+
+Lemma wf_in_range d : wf d = true -> in_range I128 (coeff d) = true.
+Proof.
+  intros H. apply wf_iff in H. apply in_I128_iff. rewrite MAXC_val in H. rewrite pow2_127. lia.
+Qed.
